@@ -171,4 +171,105 @@ def combineOK (sameStrand : Bool) (prev cur prev' cur' : List (List Comp × Bool
                | _ => false))
      | _, _ => false)
 
+
+/-! ### the assembly line across genes
+
+  Genes are listed in genome order.  On the reverse strand the *upstream* gene (in transcription
+  order) is the one at the higher coordinate, so the assembly line reads a maximal run of adjacent
+  reverse-strand genes from right to left, everything else from left to right.  Merging border
+  modules must never disturb that reading: a cross-gene module joins the C-terminal (trailing)
+  module of the upstream gene with the N-terminal (leading) module of the downstream gene. -/
+
+/-- reading of `(reverse strand?, components)` entries given in genome order; `acc` collects the
+    current run of reverse-strand genes -/
+def lineGo : List (Bool × List Comp) → List Comp → List Comp
+  | [], acc => acc
+  | (true, cs) :: rest, acc => lineGo rest (cs ++ acc)
+  | (false, cs) :: rest, acc => acc ++ cs ++ lineGo rest []
+
+/-- the domains in assembly-line (transcription) order -/
+def assemblyLine (entries : List (Bool × List Comp)) : List Comp := lineGo entries []
+
+/-- `m` occurs in `line` as a contiguous block -/
+def isInfixB (m : List Comp) : List Comp → Bool
+  | [] => m.isPrefixOf []
+  | x :: xs => m.isPrefixOf (x :: xs) || isInfixB m xs
+
+/-- the non-docking domains of a gene in query order, as components -/
+def keptComps (name : String) (domains : List Domain) : List Comp :=
+  ((sortDomains domains).filter fun d => !ignoredDomain d).map
+    fun d => ⟨d.label, d.subtypes, d.start, d.stop, name⟩
+
+/-- does `generate_domains` look at the gene at all -/
+def liveGene (g : Gene) : Bool := !(g.domains.isEmpty && !g.hasMotifs)
+
+def isReverse (strand : Int) : Bool := strand == -1
+
+/-- the assembly line of a list of genes before any module is built -/
+def geneLine (genes : List Gene) : List Comp :=
+  assemblyLine ((genes.filter liveGene).map fun g => (isReverse g.strand, keptComps g.name g.domains))
+
+/-- what the reported modules of a gene list (`out`: gene name + component lists of its modules, in
+    genome order) must satisfy: one entry per live gene; read in assembly-line order the reported
+    modules are a sub-sequence of the genes' domains in assembly-line order (nothing reordered or
+    duplicated across genes — single-domain modules are dropped from the report, hence "sub");
+    and every reported module is a contiguous block of the assembly line (so a cross-gene module is
+    the trailing end of the upstream gene followed by the leading end of the downstream gene) -/
+def chainLineOK (genes : List Gene) (out : List (String × List (List Comp))) : Bool :=
+  let live := genes.filter liveGene
+  let line := geneLine genes
+  out.map (·.1) == live.map (·.name)
+  && (assemblyLine ((live.zip out).map fun (g, o) => (isReverse g.strand, o.2.flatten))).isSublist line
+  && out.all fun o => o.2.all fun m => isInfixB m line
+
+
+/-! ### … and merging only between direct neighbours
+
+  The assembly line above runs through all genes.  Border modules may only be merged between two
+  genes that are direct neighbours in the iteration order (no gene in between, not even one
+  without domains), lie in the same region and on the same strand.  Wherever two consecutive live
+  genes are *not* such neighbours a separator pseudo-domain is put into the line; a reported module
+  must be a contiguous block of that line and contain no separator. -/
+
+/-- a pseudo-component that never occurs in a module (no label, no locus) -/
+def sepComp : Comp := ⟨"", [], 0, 0, ""⟩
+
+structure LineItem where
+  index : Nat
+  strand : Int
+  region : Nat
+  comps : List Comp
+deriving Repr
+
+/-- may border modules of these two consecutive live genes be merged at all -/
+def mergeable (a b : LineItem) : Bool :=
+  b.index == a.index + 1 && a.region == b.region && a.strand == b.strand
+
+/-- the separator entry, if any, between the previous live gene and `x` -/
+def sepBefore (prev : Option LineItem) (x : LineItem) : List (Bool × List Comp) :=
+  match prev with
+  | some p => if mergeable p x then [] else [(false, [sepComp])]
+  | none => []
+
+/-- the genes' entries for `lineGo`, with a separator entry between non-mergeable neighbours -/
+def interleave : Option LineItem → List LineItem → List (Bool × List Comp)
+  | _, [] => []
+  | prev, x :: xs => sepBefore prev x ++ (isReverse x.strand, x.comps) :: interleave (some x) xs
+
+/-- the assembly line with separators -/
+def chainLine (items : List LineItem) : List Comp := lineGo (interleave none items) []
+
+def geneItems (genes : List Gene) : List LineItem :=
+  (genes.filter liveGene).map fun g => ⟨g.index, g.strand, g.region, keptComps g.name g.domains⟩
+
+/-- the strengthened report check: as `chainLineOK`, against the line with separators, and no
+    reported module contains a separator — so a cross-gene module only ever spans direct
+    neighbours of one region and one strand, upstream gene's trailing end first -/
+def chainBlocksOK (genes : List Gene) (out : List (String × List (List Comp))) : Bool :=
+  let live := genes.filter liveGene
+  let line := chainLine (geneItems genes)
+  out.map (·.1) == live.map (·.name)
+  && (chainLine ((live.zip out).map fun (g, o) => ⟨g.index, g.strand, g.region, o.2.flatten⟩)).isSublist line
+  && out.all fun o => o.2.all fun m => isInfixB m line && !m.contains sepComp
+
 end ASV.Modules.Spec
